@@ -11,7 +11,7 @@ use serde_json::{json, Value};
 pub const SIGMA_NUM: &str = "01789+-.eExoafAF_~nultrsiNULTRSI";
 
 const STYLES: [ScalarStyle; 5] = [ScalarStyle::Plain, ScalarStyle::SingleQuoted, ScalarStyle::DoubleQuoted, ScalarStyle::Literal, ScalarStyle::Folded];
-const TAGS: [&str; 7] = ["", "int", "float", "bool", "null", "str", "!foo"];
+const TAGS: [&str; 9] = ["", "int", "float", "bool", "null", "str", "!foo", "!", "!<x>"];
 
 fn style_name(s: ScalarStyle) -> &'static str {
     match s {
@@ -29,6 +29,9 @@ fn mk_tag(t: &str) -> Option<Tag> {
     match t {
         "" => None,
         "!foo" => Some(Tag { handle: "!".into(), suffix: "foo".into() }),
+        // the non-specific tag and a verbatim tag, as the parser delivers them
+        "!" => Some(Tag { handle: "".into(), suffix: "!".into() }),
+        "!<x>" => Some(Tag { handle: "".into(), suffix: "x".into() }),
         core => Some(Tag { handle: "tag:yaml.org,2002:".into(), suffix: core.into() }),
     }
 }
@@ -210,7 +213,24 @@ fn eval_direct(text: &str, style: ScalarStyle, tag: &str, acc: &mut Acc) {
     if let Some(exp) = judge(text, style, tag, &b) {
         acc.violation(Violation { key: format!("resolve style={} tag={tag} shape={} got={}", style_name(style), shape(text), tname(&b)), expected: exp, observed: format!("{b:?}"), case: case_of(text, style, tag, "direct"), size: text.len() });
     }
+    // the node-level constructors are thin wrappers of the resolver for every node type
+    {
+        use saphyr::YamlData;
+        let n1 = std::panic::catch_unwind(|| canon_yaml(&saphyr::Yaml::value_from_cow_and_metadata(text.into(), style, t.as_ref())));
+        let n3 = std::panic::catch_unwind(|| canon_marked(&saphyr::MarkedYaml::from(YamlData::value_from_cow_and_metadata(text.into(), style, t.as_ref()))));
+        for (nt, n) in [("Yaml", n1), ("YamlData", n3)] {
+            if n.as_ref().ok() != Some(&b) {
+                acc.violation(Violation { key: format!("value_from_cow_and_metadata-differs nt={nt} style={} tag={tag}", style_name(style)), expected: format!("{b:?}"), observed: format!("{n:?}"), case: case_of(text, style, tag, "direct"), size: text.len() });
+            }
+        }
+    }
     if style == ScalarStyle::Plain && tag.is_empty() {
+        let v1 = canon_yaml(&saphyr::Yaml::value_from_str(text));
+        let v2 = canon_yaml(&saphyr::Yaml::scalar_from_string(text.to_string()));
+        let v3 = canon_marked(&saphyr::MarkedYaml::from(saphyr::YamlData::value_from_str(text)));
+        if v1 != b || v2 != b || v3 != b {
+            acc.violation(Violation { key: "value_from_str-differs".into(), expected: format!("{b:?}"), observed: format!("value_from_str {v1:?} scalar_from_string {v2:?} YamlData::value_from_str {v3:?}"), case: case_of(text, style, tag, "direct"), size: text.len() });
+        }
         // also the untagged convenience entry points
         let c = canon_scalar(&Scalar::parse_from_cow(text.into()));
         let d = canon_scalar_owned(&ScalarOwned::parse_from_cow(text.into()));
@@ -225,6 +245,8 @@ fn eval_pipeline(text: &str, style: ScalarStyle, tag: &str, acc: &mut Acc) {
     let t = match tag {
         "" => String::new(),
         "!foo" => "!foo ".into(),
+        "!" => "! ".into(),
+        "!<x>" => "!<x> ".into(),
         core => format!("!!{core} "),
     };
     let doc = match style {
@@ -338,7 +360,7 @@ fn classify_sample(text: &str, acc: &mut Acc) {
 
 pub fn check(tier: Tier) -> i32 {
     let mut rep = Report::new("C08", tier, "model_checking");
-    rep.rule = "every text up to length L over the 32-symbol core-schema alphabet plus a boundary table is resolved by the real resolver (borrowed and owned entry points) for 5 styles x 7 tags and, at a smaller L, through the whole load pipeline as each of the 4 node types; each result is compared with an independent matcher for the YAML 1.2 core-schema productions. Non-trivial: the model reads the text as a non-string; distinct: distinct (digit-collapsed shape, type).".into();
+    rep.rule = "every text up to length L over the 32-symbol core-schema alphabet plus a boundary table is resolved by the real resolver (borrowed and owned entry points) for 5 styles x 9 tags and, at a smaller L, through the whole load pipeline as each of the 4 node types; each result is compared with an independent matcher for the YAML 1.2 core-schema productions. Non-trivial: the model reads the text as a non-string; distinct: distinct (digit-collapsed shape, type).".into();
     rep.assumptions = vec!["std's str::parse::<f64> is the trusted decimal-to-double conversion for float values".into(), "'recognised' is required for JSON literals, decimal/0x/0o integers within 64 bits, floats and .inf/.nan spellings; capitalised Null/True/False spellings may stay strings".into()];
     let budget = Budget::new(wall_cap(tier));
     let (l_plain, l_all, l_pipe) = match tier {
@@ -361,7 +383,7 @@ pub fn check(tier: Tier) -> i32 {
     rep.acc.merge(acc);
     rep.scope(&sp.name, n, done);
     // 2. all styles x tags
-    let sp = StrSpace::chars(&format!("num^{l_all} x 5 styles x 7 tags"), SIGMA_NUM, l_all);
+    let sp = StrSpace::chars(&format!("num^{l_all} x 5 styles x 9 tags"), SIGMA_NUM, l_all);
     let (acc, done) = sweep_strings(&sp, &budget, |s, acc| {
         for st in STYLES {
             for tg in TAGS {
@@ -376,7 +398,7 @@ pub fn check(tier: Tier) -> i32 {
     rep.acc.merge(acc);
     rep.scope(&sp.name, n, done);
     // 3. pipeline
-    let sp = StrSpace::chars(&format!("num^{l_pipe} pipeline x 5 styles x 7 tags x 4 node types"), SIGMA_NUM, l_pipe);
+    let sp = StrSpace::chars(&format!("num^{l_pipe} pipeline x 5 styles x 9 tags x 4 node types"), SIGMA_NUM, l_pipe);
     let (acc, done) = sweep_strings(&sp, &budget, |s, acc| {
         for st in STYLES {
             for tg in TAGS {
